@@ -292,6 +292,9 @@ def gen_ref_grid(run, first_id, thorough):
             ops.append({"op": "tables"})
             out.append({"k": "history", "id": first_id + len(out), "ops": ops})
     return out
+# names in the symmetric difference of the two versions' rules (2.0 admits a leading digit / hyphen, 2.1 does not)
+VERSION_ONLY_TYPE_NAMES = ["7x-early", "-lead-hyphen", "9abc", "0-a-b", "42-types"]
+VERSION_ONLY_PROP_NAMES = [["1abc", "plain"], ["9_lives", "int"], ["_under", "plain"]]
 BAD_TYPE_NAMES = ["x_bad", "X-up", "ab", "x--double", "x-nl\n", "7x-lead", "-lead", "x-" + "a" * 249, "a b", "x-é"]
 BUILTIN_NAMES = {"object": ["identity", "malware", "bundle"], "observable": ["file", "ipv4-addr", "url"],
                  "marking": ["tlp", "statement"], "extension": ["archive-ext", "ntfs-ext"]}
@@ -364,6 +367,22 @@ def gen_history(run, idx, max_regs=8):
                         "prop": rng.choice([["later_prop", "plain"], ["Bad-Name", "plain"], ["x", "int"], ["zz_more", "listplain"]])})
         for _ in range(rng.choice([0, 1, 1, 2, 3])):
             ops.append(gen_lookup(rng, regs, pool))
+    if rng.random() < 0.35:
+        # the same request under both versions, in either order, with a name (or a property name) that only ONE of the
+        # two versions' rules admits: what one version accepted must not make the other version accept it
+        kind = rng.choice(list(KIND_CAT))
+        name = rng.choice(VERSION_ONLY_TYPE_NAMES) if rng.random() < 0.7 else "x-" + base[0] + "-both"
+        if kind == "extension":
+            name += "-ext"
+        props = [["prop1", "plain"]] + ([list(rng.choice(VERSION_ONLY_PROP_NAMES))] if rng.random() < 0.5 else [])
+        first, second = rng.choice([("2.0", "2.1"), ("2.1", "2.0")])
+        for ver in (first, second):
+            clsno += 1
+            op = {"op": "reg", "kind": kind, "ver": ver, "name": name, "props": [list(p) for p in props], "cls": "C%d" % clsno}
+            ops.append(op)
+            regs.append(op)
+            if rng.random() < 0.5:
+                ops.append(gen_lookup(rng, regs, pool))
     for _ in range(rng.randrange(2, 7)):
         ops.append(gen_lookup(rng, regs, pool))
     ops.append({"op": "tables"})                                       # did any registered class table change since its registration?
